@@ -58,14 +58,85 @@ Section Collapse.
           (Some (adj k e c, UNode (uname c) (ucom c) (b1 ++ a1)) :: b, a)
       end.
 
+  (** the inner loop of [proc], verbatim *)
+  Definition orig_go (top : bool) : list slot -> nat -> nat -> list slot * list slot :=
+    fix go (l : list slot) (k m : nat) {struct l} : list slot * list slot :=
+      match l with
+      | [] => ([], [])
+      | None :: r =>
+        if top then let '(b, a) := go r k (S m) in (None :: b, a) else go r k m
+      | Some (e, c) :: r =>
+        let cnt_r := if top then length r else length (kids_of r) in
+        let k' := k + 1 + span c in
+        let keep (e' : einfo) :=
+            let '(b1, a1) := proc c true (S k) 0 in
+            let '(b, a) := go r k' (S m) in
+            (Some (e', UNode (uname c) (ucom c) (b1 ++ a1)) :: b, a) in
+        if sel k e c then
+          if is_tip c then keep (if rt then set_len0 e else e)
+          else if negb rr && (Nat.eqb (degree c) 2 || Nat.eqb (m + 1 + cnt_r) 2) then keep e
+          else
+            let '(bc, ac) := proc c false (S k) (m + cnt_r) in
+            let '(b, a) := go r k' (m + length bc + length ac) in
+            (b, (bc ++ ac ++ a)%list)
+        else keep e
+      end.
+
+  Lemma proc_orig n cm sl top k m : proc (UNode n cm sl) top k m = orig_go top sl k m.
+  Proof. reflexivity. Qed.
+
+  Lemma orig_go_some top e c r k m :
+    orig_go top (Some (e, c) :: r) k m =
+    let cnt_r := if top then length r else length (kids_of r) in
+    let k' := k + 1 + span c in
+    let keep (e' : einfo) :=
+        let '(b1, a1) := proc c true (S k) 0 in
+        let '(b, a) := orig_go top r k' (S m) in
+        (Some (e', UNode (uname c) (ucom c) (b1 ++ a1)) :: b, a) in
+    if sel k e c then
+      if is_tip c then keep (if rt then set_len0 e else e)
+      else if negb rr && (Nat.eqb (degree c) 2 || Nat.eqb (m + 1 + cnt_r) 2) then keep e
+      else
+        let '(bc, ac) := proc c false (S k) (m + cnt_r) in
+        let '(b, a) := orig_go top r k' (m + length bc + length ac) in
+        (b, (bc ++ ac ++ a)%list)
+    else keep e.
+  Proof. reflexivity. Qed.
+
+  Lemma orig_go_none top r k m :
+    orig_go top (None :: r) k m =
+    if top then let '(b, a) := orig_go top r k (S m) in (None :: b, a) else orig_go top r k m.
+  Proof. reflexivity. Qed.
+
+  Lemma proc_go_some top e c r k m :
+    proc_go top (Some (e, c) :: r) k m =
+    let cnt_r := if top then length r else length (kids_of r) in
+    let k' := k + 1 + span c in
+    if decide k e c (m + 1 + cnt_r) then
+      let '(bc, ac) := proc c false (S k) (m + cnt_r) in
+      let '(b, a) := proc_go top r k' (m + length bc + length ac) in
+      (b, bc ++ ac ++ a)
+    else
+      let '(b1, a1) := proc c true (S k) 0 in
+      let '(b, a) := proc_go top r k' (S m) in
+      (Some (adj k e c, UNode (uname c) (ucom c) (b1 ++ a1)) :: b, a).
+  Proof. reflexivity. Qed.
+
+  Lemma proc_go_none top r k m :
+    proc_go top (None :: r) k m =
+    if top then let '(b, a) := proc_go top r k (S m) in (None :: b, a) else proc_go top r k m.
+  Proof. reflexivity. Qed.
+
   Lemma proc_eq n cm sl top k m : proc (UNode n cm sl) top k m = proc_go top sl k m.
   Proof.
-    simpl. revert k m. induction sl as [|[[e c]|] r IH]; intros k m; [reflexivity| |].
-    - cbn -[decide adj]. rewrite IH, IH. unfold decide, adj.
+    rewrite proc_orig. revert k m. induction sl as [|[[e c]|] r IH]; intros k m; [reflexivity| |].
+    - rewrite orig_go_some, proc_go_some. cbv zeta.
+      destruct (proc c false (S k) (m + (if top then length r else length (kids_of r)))) as [bc ac].
+      destruct (proc c true (S k) 0) as [b1 a1]. rewrite !IH. unfold decide, adj.
       destruct (sel k e c), (is_tip c), rr, rt; simpl;
         try reflexivity;
         destruct (Nat.eqb (degree c) 2 || Nat.eqb (m + 1 + (if top then length r else length (kids_of r))) 2); reflexivity.
-    - cbn. destruct top; rewrite IH; reflexivity.
+    - rewrite orig_go_none, proc_go_none. destruct top; rewrite IH; reflexivity.
   Qed.
 
   (** ghost: the branches of the original subtree that stay (original data, data in the
@@ -147,9 +218,9 @@ Section Collapse.
   Proof.
     destruct c as [n cm sl]. simpl. intros _ _ _ H. rewrite !leaves_unfold.
     destruct (kids_of sl) as [|p r] eqn:E.
-    - simpl in H. apply Permutation_nil in H. apply kleaves_nil_iff in H. now rewrite H.
+    - simpl in H. symmetry in H. apply Permutation_nil in H. apply kleaves_nil_iff in H. now rewrite H.
     - destruct (kids_of (b1 ++ a1)) eqn:E2; [|exact H].
-      simpl in H. symmetry in H. apply Permutation_nil in H. apply kleaves_nil_iff in H. discriminate.
+      simpl in H. apply Permutation_nil in H. apply kleaves_nil_iff in H. discriminate.
   Qed.
 
 End Collapse.
